@@ -56,7 +56,9 @@ Section Spec.
                         if (56320 <=? first_code) && (first_code <=? 57343) then None
                         else if (55296 <=? first_code) && (first_code <=? 56319) then
                           match r2 with
-                          | 92 :: 117 :: r3 =>
+                          | c0 :: c1 :: r3 =>
+                              if negb ((c0 =? 92) && (c1 =? 117)) then None
+                              else
                               match hex4_l r3 with
                               | None => None
                               | Some (second_code, r4) =>
@@ -97,7 +99,90 @@ Section Spec.
     | Some (d, consumed) => Some (Node c_cJSON_Number None (sat_int d) d None [], skipn consumed l)
     end.
 
-  (* value at nesting depth [depth] (number of enclosing containers) *)
+  (* arrays and objects, given the function [vl] for a value one level down.  [elems_l] starts
+     at the first element, [members_l] at the first key; every round consumes a separator, so
+     the local fuel [S (length r)] suffices. *)
+  Section Containers.
+    Variable vl : bytes -> option (node * bytes).
+
+    Fixpoint elems_l (k : nat) (l0 : bytes) (acc : list node) : option (list node * bytes) :=
+      match k with
+      | O => None
+      | S k' =>
+          match vl (drop_ws l0) with
+          | None => None
+          | Some (v, r2) =>
+              match drop_ws r2 with
+              | c2 :: r3 =>
+                  if c2 =? 44 then elems_l k' r3 (v :: acc)
+                  else if c2 =? 93 then Some (rev (v :: acc), r3)
+                  else None
+              | [] => None
+              end
+          end
+      end.
+
+    (* after the opening bracket *)
+    Definition array_l (r : bytes) : option (node * bytes) :=
+      match drop_ws r with
+      | [] => None
+      | c1 :: r1 =>
+          if c1 =? 93 then Some (Node c_cJSON_Array None 0 dzero None [], r1)
+          else match elems_l (S (length r)) (c1 :: r1) [] with
+               | Some (items, rest) => Some (Node c_cJSON_Array None 0 dzero None items, rest)
+               | None => None
+               end
+      end.
+
+    Fixpoint members_l (k : nat) (l0 : bytes) (acc : list node) : option (list node * bytes) :=
+      match k with
+      | O => None
+      | S k' =>
+          match drop_ws l0 with
+          | q :: rq =>
+              if negb (q =? 34) then None
+              else
+                match string_l rq with
+                | None => None
+                | Some (key, r2) =>
+                    match drop_ws r2 with
+                    | col :: r3 =>
+                        if negb (col =? 58) then None
+                        else
+                          match vl (drop_ws r3) with
+                          | None => None
+                          | Some (v0, r4) =>
+                              let v := with_key key v0 in
+                              match drop_ws r4 with
+                              | c2 :: r5 =>
+                                  if c2 =? 44 then members_l k' r5 (v :: acc)
+                                  else if c2 =? 125 then Some (rev (v :: acc), r5)
+                                  else None
+                              | [] => None
+                              end
+                          end
+                    | [] => None
+                    end
+                end
+          | [] => None
+          end
+      end.
+
+    (* after the opening brace *)
+    Definition object_l (r : bytes) : option (node * bytes) :=
+      match drop_ws r with
+      | [] => None
+      | c1 :: r1 =>
+          if c1 =? 125 then Some (Node c_cJSON_Object None 0 dzero None [], r1)
+          else match members_l (S (length r)) (c1 :: r1) [] with
+               | Some (items, rest) => Some (Node c_cJSON_Object None 0 dzero None items, rest)
+               | None => None
+               end
+      end.
+  End Containers.
+
+  (* value at nesting depth [depth] (number of enclosing containers); one unit of fuel per
+     nesting level, so fuel = S (length l) suffices *)
   Fixpoint value_l (fuel : nat) (depth : Z) (l : bytes) : option (node * bytes) :=
     match fuel with
     | O => None
@@ -118,72 +203,9 @@ Section Spec.
               match string_l r with Some (s, rest) => Some (Node c_cJSON_String (Some s) 0 dzero None [], rest) | None => None end
             else if (c =? 45) || ((48 <=? c) && (c <=? 57)) then number_l l
             else if c =? 91 then
-              if c_CJSON_NESTING_LIMIT <=? depth then None
-              else
-                match drop_ws r with
-                | [] => None
-                | c1 :: r1 =>
-                    if c1 =? 93 then Some (Node c_cJSON_Array None 0 dzero None [], r1)
-                    else
-                      (fix elems (k : nat) (l0 : bytes) (acc : list node) : option (node * bytes) :=
-                         match k with
-                         | O => None
-                         | S k' =>
-                             match value_l f (depth + 1) (drop_ws l0) with
-                             | None => None
-                             | Some (v, r2) =>
-                                 match drop_ws r2 with
-                                 | c2 :: r3 =>
-                                     if c2 =? 44 then elems k' r3 (v :: acc)
-                                     else if c2 =? 93 then Some (Node c_cJSON_Array None 0 dzero None (rev (v :: acc)), r3)
-                                     else None
-                                 | [] => None
-                                 end
-                             end
-                         end) (S (length l)) (c1 :: r1) []
-                end
+              if c_CJSON_NESTING_LIMIT <=? depth then None else array_l (value_l f (depth + 1)) r
             else if c =? 123 then
-              if c_CJSON_NESTING_LIMIT <=? depth then None
-              else
-                match drop_ws r with
-                | [] => None
-                | c1 :: r1 =>
-                    if c1 =? 125 then Some (Node c_cJSON_Object None 0 dzero None [], r1)
-                    else
-                      (fix members (k : nat) (l0 : bytes) (acc : list node) : option (node * bytes) :=
-                         match k with
-                         | O => None
-                         | S k' =>
-                             match drop_ws l0 with
-                             | q :: rq =>
-                                 if negb (q =? 34) then None
-                                 else
-                                   match string_l rq with
-                                   | None => None
-                                   | Some (key, r2) =>
-                                       match drop_ws r2 with
-                                       | col :: r3 =>
-                                           if negb (col =? 58) then None
-                                           else
-                                             match value_l f (depth + 1) (drop_ws r3) with
-                                             | None => None
-                                             | Some (v0, r4) =>
-                                                 let v := with_key key v0 in
-                                                 match drop_ws r4 with
-                                                 | c2 :: r5 =>
-                                                     if c2 =? 44 then members k' r5 (v :: acc)
-                                                     else if c2 =? 125 then Some (Node c_cJSON_Object None 0 dzero None (rev (v :: acc)), r5)
-                                                     else None
-                                                 | [] => None
-                                                 end
-                                             end
-                                       | [] => None
-                                       end
-                                   end
-                             | [] => None
-                             end
-                         end) (S (length l)) (c1 :: r1) []
-                end
+              if c_CJSON_NESTING_LIMIT <=? depth then None else object_l (value_l f (depth + 1)) r
             else None
         end end end end
     end.
